@@ -376,9 +376,33 @@ class RulesOnOff(NativeCase):
                     if bad:
                         break
                 self.ob('specification(rules %s) evaluates like the block' % nm, bad is None, inputs=dict(block=b, rules=nm, applied=sfs.get("rules")), info=bad)
+        # size clause: a rule is applied only when it does not enlarge the code.  Necessary condition, decided without a search:
+        # every implementation of a specification pushes each of its distinct constants at least once and executes each of its
+        # other instructions at least once, so  sum(PUSH sizes of distinct constants) + #other instructions  <= size of the block
+        from specs import cost
+        for b in shapes + SIZE_BLOCKS:
+            toks = corpus.tokens(b)
+            pipeline.reset_sticky_globals()
+            try:
+                spec, sub = spec_of_block(toks)
+            except BaseException:
+                continue
+            if len(spec) != 1:
+                continue
+            sfs = spec[list(spec)[0]]
+            consts = set(int(u["value"][0]) for u in sfs["user_instrs"] if u["disasm"] == "PUSH")
+            other = [u for u in sfs["user_instrs"] if not u["disasm"].startswith("PUSH")]
+            bound = sum(cost.push_bytes(c, push0=True) for c in consts) + len(other)
+            size_in = sum(cost.item_bytes(nm, v if nm == 'PUSH' else None, push0=True) for nm, v in evmexec.parse_plain(toks))
+            self.ob('size mode: the specification with rules needs no more bytes than the block', bound <= size_in,
+                    inputs=dict(block=b, applied=sfs.get("rules")), info="every implementation needs >= %d bytes, the block has %d" % (bound, size_in))
         cleanup_tmp()
         self.assumptions = ("bounded: %d rule-shape blocks x {rules on, rules off}, %d sampled stacks each" % (len(shapes), n_states + 5),)
 
+
+# blocks in which a folded operand is shared (finding F45)
+SIZE_BLOCKS = ["PUSH 8000000000000000000000000000000000000000000000000000000000000000 DUP1 PUSH 1 ADD", "PUSH ffffffff DUP1 MUL",
+               "PUSH " + "ff" * 31 + " DUP1 NOT", "PUSH ffffffff DUP1 MUL DUP2 ADD", "PUSH ff DUP1 ADD", "PUSH 10 DUP1 MUL DUP1 ADD"]
 
 _cases_p = cases
 
